@@ -107,6 +107,8 @@ func symOf(v ssa.Value) (string, bool) {
 				}
 			case *ssa.Global:
 				return a.Name(), true
+			case *ssa.IndexAddr:
+				return addrSym(a)
 			}
 			return "", false
 		case *ssa.Call:
@@ -166,6 +168,14 @@ func addrSym(v ssa.Value) (string, bool) {
 		}
 	case *ssa.UnOp:
 		return symOf(x)
+	case *ssa.IndexAddr:
+		// an element of a named sequence (&routes[i]): the element is named after the sequence
+		if base, ok := symOf(x.X); ok {
+			return base + "[]", true
+		}
+		if base, ok := addrSym(x.X); ok {
+			return base + "[]", true
+		}
 	case *ssa.Extract:
 		if call, ok := x.Tuple.(*ssa.Call); ok {
 			return callDesc(call) + "()#" + itoa(x.Index), true
